@@ -192,6 +192,11 @@ func (g *tgen) item(rt *rapid.T) model.Item {
 			delete(it, a)
 		}
 	}
+	// an attribute named like a value placeholder the expression generator allocates
+	// (":v1" in an expression is the request's value, whatever the item holds)
+	if rapid.IntRange(0, 29).Draw(rt, "valueNamedAttr") == 13 {
+		it[rapid.SampledFrom([]string{":v1", ":v2", ":1", ":_1"}).Draw(rt, "valueNamedK")] = gen.AV(rt, g.o, "valueNamedV")
+	}
 	for k, v := range g.key(rt) {
 		it[k] = v
 	}
@@ -219,7 +224,7 @@ func (g *tgen) updateOp(rt *rapid.T, db *model.DB, illTyped int) model.Op {
 	if base == nil {
 		base = key
 	}
-	c := gen.NewExprCtx(base, g.o)
+	c := gen.NewExprCtx(base, g.o).Style(rt)
 	cfg := gen.UpdateCfg{MaxActions: 3, KeyAttrs: g.s.KeyAttrs(), ExtraTargets: g.ixAttrs(), ExtraValues: g.ixVals, IllTyped: illTyped}
 	u := c.Update(rt, cfg)
 	op := model.Op{Kind: "Update", Table: g.s.Table, Key: key, Update: model.RenderUpdate(u), Names: c.Names, Values: c.Values}
